@@ -67,6 +67,39 @@ def cli_config_runs(ctx):
     return out
 
 
+def cli_pair_runs(ctx):
+    """schema text x operation text through the real CLI's generate: schemas that reuse one name for two kinds of type, redefine a built-in
+    directive or define a directive twice - whatever `check` makes of them, nothing may panic"""
+    base = "type N { y: Int }\ntype Query { a: Int n: N }\n"
+    twice = ["scalar M\ntype M { x: Int }\nunion U = M | N\nextend type Query { u: U m: M }\n",
+             "type M { x: Int }\nscalar M\nunion U = M | N\nextend type Query { u: U m: M }\n",
+             "enum M { A }\ninput M { a: Int }\nextend type Query { m(i: M): M }\n",
+             "interface M { y: Int }\ntype M implements M { y: Int }\nextend type Query { m: M }\n",
+             "union M = N\ntype M { x: Int }\nextend type Query { m: M }\n",
+             "directive @skip on FIELD\n", "directive @include(if: Int) on FIELD\n", "directive @skip(if: Boolean!, also: Int) on FIELD | FRAGMENT_SPREAD\n",
+             "directive @deprecated on FIELD_DEFINITION\nextend type Query { old: Int @deprecated }\n", "directive @specifiedBy on SCALAR\nscalar S @specifiedBy\n",
+             "directive @x on FIELD\ndirective @x(a: Int!) on FIELD\n", "directive @x(a: Int!) on FIELD\ndirective @x on FIELD\n", ""]
+    ops = ["query Q { a }", "query Q { u { __typename ... on N { y } } }", "query Q { m { __typename } }", "query Q { a @skip }", "query Q { a @include(if: 1) }",
+           "query Q { a @skip(if: true, also: 1) }", "query Q { a @x }", "query Q { a @x(a: 1) }", "query Q { m }", "query Q { old }", "query Q { n { y @skip(if: true) } }"]
+    cfg = json.dumps({"schema": "./schema/*.graphql", "documents": "./ops/*.graphql",
+                      "extensions": {"nitrogql": {"generate": {"schemaOutput": "./gen/schema.d.ts", "resolversOutput": "./gen/resolvers.d.ts",
+                                                               "type": {"scalarTypes": {"M": "string", "S": "string"}}}}}})
+    cases, texts = [], []
+    for t in twice:
+        for o in ops:
+            cases.append({"id": len(cases), "files": [{"rel": "graphql.config.json", "text": cfg}, {"rel": "schema/s.graphql", "text": base + t},
+                                                       {"rel": "ops/q.graphql", "text": o + "\n"}], "args": ["generate"], "texts": False})
+            texts.append(base + t + "---\n" + o)
+    vlib.write_ndjson(ctx.path("pair_cases.ndjson"), cases)
+    vlib.run_harness(["cliproj", vlib.CLI_BIN, ctx.path("pair_cases.ndjson"), ctx.path("pair_runs.ndjson"), ctx.path("pairproj"), "12"], timeout=3000)
+    out = []
+    for r in sorted(vlib.read_ndjson(ctx.path("pair_runs.ndjson")), key=lambda r: r["id"]):
+        o = "panic" if (r["panicked"] or r["signal"]) else "ok" if r["exit"] == 0 else "err"
+        out.append({"ev": "Stages", "id": 20_000_000 + r["id"], "kind": "cli-schema-op", "cp": [ord(c) for c in texts[r["id"]]] if o == "panic" else [],
+                    "stages": [{"s": "cli-generate", "o": o}]})
+    return out
+
+
 def run(ctx, res):
     vlib.build_harness()
     docs = [{"kind": "op", "A": d} for d in c07.op_catalog()] + [{"kind": "ts", "A": d} for d in c07.ts_catalog()]
@@ -129,7 +162,7 @@ def run(ctx, res):
         raise vlib.ToolError("stage driver returned %d events for %d cases" % (len(events), len(cases)))
     # configuration texts that PARSE, all the way through the real CLI's `generate`: every combination of the output options, with and
     # without operation documents (a stage of its own in the pipeline model: a configuration is rejected with a diagnostic, never a panic)
-    cli_events = cli_config_runs(ctx)
+    cli_events = cli_config_runs(ctx) + cli_pair_runs(ctx)
     # keep the text only where something went wrong (size)
     for e in events:
         if all(s["o"] in ("ok", "err", "accepted", "rejected") for s in e["stages"]):
@@ -154,7 +187,8 @@ def run(ctx, res):
                 "unmutated documents, %d random token soups, %d grammar-built documents that reuse response keys for different fields / shapes and "
                 "spread one fragment several times under different conditions, random Unicode strings, nesting depth 8/32/64 and %d configuration texts; "
                 "plus 256 configurations that parse (every combination of the five output options x with / without operation documents x mode x model plugin) "
-                "run through the real CLI's `generate`. Every "
+                "run through the real CLI's `generate`, as are 143 schema x operation pairs whose schema uses one name for two kinds of type, redefines a built-in "
+                "directive or defines a directive twice. Every "
                 "text is fed to every stage the pipeline model reaches (parse, extensions, imports, check, then generation or diagnostic "
                 "rendering; and the loader ABI without check) in crash-isolated child processes. Impl->spec: Trace_C08 accepts only ok/err "
                 "outcomes within 5 s per stage and checks the stage order against the model. Non-trivial = input that got past the first stage."
